@@ -95,7 +95,9 @@ def classify(kind: str, w: dict) -> str:
     if kind == 'content':
         path = w['path'].strip('/').split('/')
         view = path[0]
-        field = path[-1] if not path[-1].isdigit() else (path[-2] if len(path) > 1 else '')
+        field = next((p for p in reversed(path[1:]) if not p.isdigit()), '')
+        if view == 'ents' and len(path) > 2:
+            field = path[2]  # 'keys' or 'outs': never the (generated) key name itself
         if view == 'water_leaf_info' and w.get('len_got') == 0:
             return 'water-leaf-writer-rereads-view'
         if field == 'hammer_id' or (view in ('faces', 'hdr_faces', 'orig_faces') and path[-1] == 'hammer_id'):
@@ -226,7 +228,7 @@ def run_case(run, inp: Input, seq: Sequence[str], tmp: str, engine: str, case: d
         stage = 'reparse'
         canong = G.dump_bsp(g)
         for d in G.view_diffs(canon0, canong):
-            viol('content', f'parsed content differs at {d["path"]}: want {str(d["want"])[:80]} got {str(d["got"])[:80]}', d)
+            viol('content', f'parsed content differs at {d["path"]}: want {G.safe(d["want"])} got {G.safe(d["got"])}', d)
         # one more cycle from the file: read, touch the same views, save; nothing may move any more
         stage = 'cycle'
         g2 = BSP(gpath)
